@@ -127,6 +127,19 @@ def check(ctx):
             {"ftol": ("max", "1e-6"), "xtol": ("max", "1e-6"), "gtol": ("max", "1e-6"), "maxfev": ("min", 100), "max_nfev": ("min", 100)},
             "the least-squares fit keeps its default (1e-8) or explicit tolerances of at most 1e-6 and at least 100 evaluations: noise-free data are fitted to the generating parameters",
         )
+        # the optimum is the *least-squares* one: no robust loss, no weights
+        from ..values import StrV as _StrV, NoneV as _NoneV
+
+        altered = []
+        if a.get("loss") is not None and not (isinstance(a["loss"], _StrV) and a["loss"].s == "linear"):
+            altered.append("loss=" + str(getattr(a["loss"], "s", a["loss"]))[:20])
+        if a.get("sigma") is not None and not isinstance(a["sigma"], _NoneV):
+            altered.append("sigma")
+        ctx.check(
+            not altered, "C05-h", m.qualname + f":least-squares objective [{tag}]", where,
+            "curve_fit minimises the plain sum of squared residuals (loss='linear', no sigma weights): with a supplied tau, M is the bounded least-squares optimum",
+            signature="objective altered by " + ",".join(altered),
+        )
         p0 = a.get("p0")
         regs = [e for e in p.events if e.kind == "int_call" and e.data["callee"] == reg.qualname]
         p0n = it.to_nf(p0) if p0 is not None else {}
